@@ -161,14 +161,14 @@ theorem pivotSearch_fl {n k p : Nat} {m : Mat (Fl M)} {mm : Nat → Nat → Fl M
 /-- **Forward elimination with partial pivoting of `[A | b]`, backward error** (Higham, Thm 9.3, for
 the `kij` elimination of `gauss_with_pivot`: multipliers `l̂_ik = fl(m_ik / m_kk)`, updates
 `m_ij ← fl(m_ij − fl(l̂_ik m_kj))` for `j = k, …, n−1` and `y_i ← fl(y_i − fl(l̂_ik y_k))`).  Whenever the
-instrumented elimination returns `((m', ŷ), tr)` and the run was regular: `m'`, `ŷ` are what
+instrumented elimination returns `((m', ŷ), tr)`: `m'`, `ŷ` are what
 `gaussWithPivot` returns, `tr.perm` is a permutation `π` of the rows, every multiplier is at most
 `1 + u` in magnitude (a rounded quotient of magnitudes `≤ 1`, see C01F), and
 `|(L̂Û)_{rc} − a_{π r, c}| ≤ gq (n−1) (|L̂||Û|)_{rc}`, `|(L̂ŷ)_r − b_{π r}| ≤ gq (n−1) (|L̂||ŷ|)_r`. -/
 theorem gauss_backward (hu : M.u < 1) {n : Nat} (hn : 1 ≤ n) {A : Mat (Fl M)}
     {a : Nat → Nat → Fl M} (hA : Mat.Is A n n a) {b : Array (Fl M)} (hb : b.size = n)
     {m' : Mat (Fl M)} {y : Array (Fl M)} {tr : GTrace (Fl M)}
-    (h : Mat.gaussT A b = .ok ((m', y), tr)) (hreg : tr.reg = true) :
+    (h : Mat.gaussT A b = .ok ((m', y), tr)) :
     Mat.gaussWithPivot A b = .ok (m', y) ∧ WFn m' n ∧ y.size = n ∧
     ∃ σ : Nat → Nat, PermOK n tr.perm σ ∧
       (∀ r c, r < n → c < r → |GLhat tr r c| ≤ 1 + M.u) ∧
@@ -178,7 +178,7 @@ theorem gauss_backward (hu : M.u < 1) {n : Nat} (hn : 1 ≤ n) {A : Mat (Fl M)}
       (∀ r, r < n →
         |∑ k ∈ Finset.range n, GLhat tr r k * (vf y k).val - (vf b (tr.perm r)).val|
           ≤ M.gq (n - 1) * absGLy n tr y r) := by
-  obtain ⟨hwf, hsz, σ, hperm, hmult, hfa, hfb⟩ := Mat.gauss_factor_fl hu hn hA.wfn hb h hreg
+  obtain ⟨hwf, hsz, σ, hperm, hmult, hfa, hfb⟩ := Mat.gauss_factor_fl hu hn hA.wfn hb h
   have hproj : Mat.gaussWithPivot A b = .ok (m', y) := by
     rw [← Mat.gaussT_fst, h]; rfl
   refine ⟨hproj, hwf, hsz, σ, hperm, ?_, ?_, ?_⟩
@@ -219,7 +219,7 @@ theorem gauss_backward (hu : M.u < 1) {n : Nat} (hn : 1 ≤ n) {A : Mat (Fl M)}
 /-- **`solve_basic`, backward error, classical form** (Higham, Thm 9.4).  Whenever `solveBasic A b`
 returns `x̂` in `Fl M` (`A` is `n × n`, `n ≥ 1`, `u < 1`): `x̂ = backsolve m' ŷ` for the result `(m', ŷ)`
 of `gaussWithPivot A b`, which is the projection of the instrumented run `gaussT A b = ((m', ŷ), tr)`;
-all pivots `m'_ii` are non-zero; and IF THE RUN WAS REGULAR (`tr.reg = true`, see the header) then,
+all pivots `m'_ii` are non-zero; and,
 with `π = tr.perm` the row permutation performed, `L̂` the unit lower matrix of the recorded
 multipliers (`|l̂_rc| ≤ 1 + u`) and `Û` the upper triangle of `m'`:
 `(A + ΔA) x̂ = b` holds EXACTLY — the right-hand side is not perturbed — and
@@ -232,19 +232,18 @@ theorem solveBasic_backward (hu : M.u < 1) {n : Nat} (hn : 1 ≤ n) {A : Mat (Fl
     ∃ (m' : Mat (Fl M)) (y : Array (Fl M)) (tr : GTrace (Fl M)),
       Mat.gaussT A b = .ok ((m', y), tr) ∧ Mat.gaussWithPivot A b = .ok (m', y) ∧
       Mat.backsolve m' y = .ok x ∧
-      (tr.reg = true → x.size = n ∧ (∀ i, i < n → (ent m' i i).val ≠ 0) ∧
-        ∃ σ : Nat → Nat, PermOK n tr.perm σ ∧
-        (∀ r c, r < n → c < r → |GLhat tr r c| ≤ 1 + M.u) ∧
-        ∃ ΔA : Nat → Nat → ℝ,
-          (∀ i, i < n →
-            ∑ j ∈ Finset.range n, ((a i j).val + ΔA i j) * (vf x j).val = (vf b i).val) ∧
-          ∀ r c, r < n → c < n →
-            |ΔA (tr.perm r) c| ≤ (M.gq (n - 1) + M.gq (2 * n - 1)) * absGLU n tr m' r c) := by
+      x.size = n ∧ (∀ i, i < n → (ent m' i i).val ≠ 0) ∧
+      ∃ σ : Nat → Nat, PermOK n tr.perm σ ∧
+      (∀ r c, r < n → c < r → |GLhat tr r c| ≤ 1 + M.u) ∧
+      ∃ ΔA : Nat → Nat → ℝ,
+        (∀ i, i < n →
+          ∑ j ∈ Finset.range n, ((a i j).val + ΔA i j) * (vf x j).val = (vf b i).val) ∧
+        ∀ r c, r < n → c < n →
+          |ΔA (tr.perm r) c| ≤ (M.gq (n - 1) + M.gq (2 * n - 1)) * absGLU n tr m' r c := by
   obtain ⟨m', y, tr, hg, hgw, hbs⟩ := Mat.solveBasic_run hA.wfn hb h
-  refine ⟨m', y, tr, hg, hgw, hbs, fun hreg => ?_⟩
-  obtain ⟨_, _, _, σ, hperm, hmult, _, _⟩ := gauss_backward hu hn hA hb hg hreg
-  obtain ⟨hxs, hpiv, ΔA', hrow, hbd⟩ := Mat.solveBasic_backward_core hu hn hA.wfn hb hg hreg hbs
-  refine ⟨hxs, hpiv, σ, hperm, hmult, fun i j => ΔA' (σ i) j, ?_, ?_⟩
+  obtain ⟨_, _, _, σ, hperm, hmult, _, _⟩ := gauss_backward hu hn hA hb hg
+  obtain ⟨hxs, hpiv, ΔA', hrow, hbd⟩ := Mat.solveBasic_backward_core hu hn hA.wfn hb hg hbs
+  refine ⟨m', y, tr, hg, hgw, hbs, hxs, hpiv, σ, hperm, hmult, fun i j => ΔA' (σ i) j, ?_, ?_⟩
   · intro i hi
     obtain ⟨hσ, hπσ⟩ := hperm.2 i hi
     have := hrow (σ i) hσ
@@ -258,7 +257,7 @@ theorem solveBasic_backward (hu : M.u < 1) {n : Nat} (hn : 1 ≤ n) {A : Mat (Fl
     rw [(hperm.1 r hr).2]
     exact hbd r c hr hc
 
-/-- **`solve_basic`, backward error, two-sided form**: for a regular run
+/-- **`solve_basic`, backward error, two-sided form**: for every returned value
 `(A + ΔA) x̂ = b + Δb` EXACTLY with `|ΔA| ≤ (gq (n−1) + gq n) · Pᵀ|L̂||Û|` (elimination of `A`, back
 substitution) and `|Δb| ≤ gq (n−1) · Pᵀ|L̂||ŷ|` (elimination of `b`; `ŷ` the transformed right-hand
 side). -/
@@ -267,19 +266,18 @@ theorem solveBasic_backward_twosided (hu : M.u < 1) {n : Nat} (hn : 1 ≤ n) {A 
     (h : Mat.solveBasic A b = .ok x) :
     ∃ (m' : Mat (Fl M)) (y : Array (Fl M)) (tr : GTrace (Fl M)),
       Mat.gaussT A b = .ok ((m', y), tr) ∧ Mat.backsolve m' y = .ok x ∧
-      (tr.reg = true → ∃ σ : Nat → Nat, PermOK n tr.perm σ ∧
-        ∃ (ΔA : Nat → Nat → ℝ) (Δb : Nat → ℝ),
-          (∀ i, i < n → ∑ j ∈ Finset.range n, ((a i j).val + ΔA i j) * (vf x j).val
-            = (vf b i).val + Δb i) ∧
-          (∀ r c, r < n → c < n →
-            |ΔA (tr.perm r) c| ≤ (M.gq (n - 1) + M.gq n) * absGLU n tr m' r c) ∧
-          (∀ r, r < n → |Δb (tr.perm r)| ≤ M.gq (n - 1) * absGLy n tr y r)) := by
+      ∃ σ : Nat → Nat, PermOK n tr.perm σ ∧
+      ∃ (ΔA : Nat → Nat → ℝ) (Δb : Nat → ℝ),
+        (∀ i, i < n → ∑ j ∈ Finset.range n, ((a i j).val + ΔA i j) * (vf x j).val
+          = (vf b i).val + Δb i) ∧
+        (∀ r c, r < n → c < n →
+          |ΔA (tr.perm r) c| ≤ (M.gq (n - 1) + M.gq n) * absGLU n tr m' r c) ∧
+        (∀ r, r < n → |Δb (tr.perm r)| ≤ M.gq (n - 1) * absGLy n tr y r) := by
   obtain ⟨m', y, tr, hg, hgw, hbs⟩ := Mat.solveBasic_run hA.wfn hb h
-  refine ⟨m', y, tr, hg, hbs, fun hreg => ?_⟩
-  obtain ⟨_, _, _, σ, hperm, _, _, _⟩ := gauss_backward hu hn hA hb hg hreg
+  obtain ⟨_, _, _, σ, hperm, _, _, _⟩ := gauss_backward hu hn hA hb hg
   obtain ⟨ΔA', Δb', hrow, hbd, hbb⟩ :=
-    Mat.solveBasic_backward_core2 hu hn hA.wfn hb hg hreg hbs
-  refine ⟨σ, hperm, fun i j => ΔA' (σ i) j, fun i => Δb' (σ i), ?_, ?_, ?_⟩
+    Mat.solveBasic_backward_core2 hu hn hA.wfn hb hg hbs
+  refine ⟨m', y, tr, hg, hbs, σ, hperm, fun i j => ΔA' (σ i) j, fun i => Δb' (σ i), ?_, ?_, ?_⟩
   · intro i hi
     obtain ⟨hσ, hπσ⟩ := hperm.2 i hi
     have := hrow (σ i) hσ
@@ -297,37 +295,19 @@ theorem solveBasic_backward_twosided (hu : M.u < 1) {n : Nat} (hn : 1 ≤ n) {A 
     rw [(hperm.1 r hr).2]
     exact hbb r hr
 
-/-- **`solve_basic` for `n ≤ 2`**: every run is regular, so the classical backward error bound holds
-for every returned value, with no hypothesis on the run -/
-theorem solveBasic_backward_small (hu : M.u < 1) {n : Nat} (hn : 1 ≤ n) (hn2 : n ≤ 2)
-    {A : Mat (Fl M)} {a : Nat → Nat → Fl M} (hA : Mat.Is A n n a) {b x : Array (Fl M)}
-    (hb : b.size = n) (h : Mat.solveBasic A b = .ok x) :
-    ∃ (m' : Mat (Fl M)) (y : Array (Fl M)) (tr : GTrace (Fl M)) (σ : Nat → Nat),
-      Mat.gaussT A b = .ok ((m', y), tr) ∧ PermOK n tr.perm σ ∧ x.size = n ∧
-      ∃ ΔA : Nat → Nat → ℝ,
-        (∀ i, i < n →
-          ∑ j ∈ Finset.range n, ((a i j).val + ΔA i j) * (vf x j).val = (vf b i).val) ∧
-        ∀ r c, r < n → c < n →
-          |ΔA (tr.perm r) c| ≤ (M.gq (n - 1) + M.gq (2 * n - 1)) * absGLU n tr m' r c := by
-  obtain ⟨m', y, tr, hg, _, _, hgood⟩ := solveBasic_backward hu hn hA hb h
-  have hreg : tr.reg = true := Mat.gaussT_reg_of_le_two hA.wfn hb hn2 hg
-  obtain ⟨hxs, _, σ, hperm, _, ΔA, h1, h2⟩ := hgood hreg
-  exact ⟨m', y, tr, σ, hg, hperm, hxs, ΔA, h1, h2⟩
-
-/-- **normwise form**: `‖ΔA‖_∞ ≤ (gq (n−1) + gq (2n−1)) · ‖ |L̂||Û| ‖_∞` for a regular run -/
+/-- **normwise form**: `‖ΔA‖_∞ ≤ (gq (n−1) + gq (2n−1)) · ‖ |L̂||Û| ‖_∞` -/
 theorem solveBasic_backward_normwise (hu : M.u < 1) {n : Nat} (hn : 1 ≤ n) {A : Mat (Fl M)}
     {a : Nat → Nat → Fl M} (hA : Mat.Is A n n a) {b x : Array (Fl M)} (hb : b.size = n)
     (h : Mat.solveBasic A b = .ok x) :
     ∃ (m' : Mat (Fl M)) (y : Array (Fl M)) (tr : GTrace (Fl M)),
       Mat.gaussT A b = .ok ((m', y), tr) ∧ Mat.backsolve m' y = .ok x ∧
-      (tr.reg = true → ∃ ΔA : Nat → Nat → ℝ,
+      ∃ ΔA : Nat → Nat → ℝ,
         (∀ i, i < n →
           ∑ j ∈ Finset.range n, ((a i j).val + ΔA i j) * (vf x j).val = (vf b i).val) ∧
-        rowNorm n ΔA ≤ (M.gq (n - 1) + M.gq (2 * n - 1)) * rowNorm n (absGLU n tr m')) := by
-  obtain ⟨m', y, tr, hg, _, hbs, hgood⟩ := solveBasic_backward hu hn hA hb h
-  refine ⟨m', y, tr, hg, hbs, fun hreg => ?_⟩
-  obtain ⟨_, _, σ, hperm, _, ΔA, hsol, hbd⟩ := hgood hreg
-  refine ⟨ΔA, hsol, ?_⟩
+        rowNorm n ΔA ≤ (M.gq (n - 1) + M.gq (2 * n - 1)) * rowNorm n (absGLU n tr m') := by
+  obtain ⟨m', y, tr, hg, _, hbs, _, _, σ, hperm, _, ΔA, hsol, hbd⟩ :=
+    solveBasic_backward hu hn hA hb h
+  refine ⟨m', y, tr, hg, hbs, ΔA, hsol, ?_⟩
   have hc0 : 0 ≤ M.gq (n - 1) + M.gq (2 * n - 1) :=
     add_nonneg (FlModel.gq_nonneg hu _) (FlModel.gq_nonneg hu _)
   refine rowNorm_le _ (mul_nonneg hc0 (rowNorm_nonneg _ _)) ?_
@@ -378,23 +358,20 @@ theorem absGLU_rowNorm_le {n : Nat} {tr : GTrace (Fl M)} (m' : Mat (Fl M))
         rw [Finset.sum_const, Finset.card_range, nsmul_eq_mul]; ring
 
 /-- **normwise form with partial pivoting**:
-`‖ΔA‖_∞ ≤ (gq (n−1) + gq (2n−1)) · n (1+u) · ‖Û‖_∞` for a regular run (the growth of `Û` is not
-bounded here) -/
+`‖ΔA‖_∞ ≤ (gq (n−1) + gq (2n−1)) · n (1+u) · ‖Û‖_∞` (the growth of `Û` is not bounded here) -/
 theorem solveBasic_backward_normwise_U (hu : M.u < 1) {n : Nat} (hn : 1 ≤ n) {A : Mat (Fl M)}
     {a : Nat → Nat → Fl M} (hA : Mat.Is A n n a) {b x : Array (Fl M)} (hb : b.size = n)
     (h : Mat.solveBasic A b = .ok x) :
     ∃ (m' : Mat (Fl M)) (y : Array (Fl M)) (tr : GTrace (Fl M)),
       Mat.gaussT A b = .ok ((m', y), tr) ∧ Mat.backsolve m' y = .ok x ∧
-      (tr.reg = true → ∃ ΔA : Nat → Nat → ℝ,
+      ∃ ΔA : Nat → Nat → ℝ,
         (∀ i, i < n →
           ∑ j ∈ Finset.range n, ((a i j).val + ΔA i j) * (vf x j).val = (vf b i).val) ∧
         rowNorm n ΔA
-          ≤ (M.gq (n - 1) + M.gq (2 * n - 1)) * (n * (1 + M.u) * rowNorm n (GUhat n m'))) := by
-  obtain ⟨m', y, tr, hg, hbs, hgood⟩ := solveBasic_backward_normwise hu hn hA hb h
-  refine ⟨m', y, tr, hg, hbs, fun hreg => ?_⟩
-  obtain ⟨ΔA, hsol, hbd⟩ := hgood hreg
-  obtain ⟨_, _, _, σ, _, hmult, _, _⟩ := gauss_backward hu hn hA hb hg hreg
-  refine ⟨ΔA, hsol, hbd.trans ?_⟩
+          ≤ (M.gq (n - 1) + M.gq (2 * n - 1)) * (n * (1 + M.u) * rowNorm n (GUhat n m')) := by
+  obtain ⟨m', y, tr, hg, hbs, ΔA, hsol, hbd⟩ := solveBasic_backward_normwise hu hn hA hb h
+  obtain ⟨_, _, _, σ, _, hmult, _, _⟩ := gauss_backward hu hn hA hb hg
+  refine ⟨m', y, tr, hg, hbs, ΔA, hsol, hbd.trans ?_⟩
   exact mul_le_mul_of_nonneg_left (absGLU_rowNorm_le m' hmult)
     (add_nonneg (FlModel.gq_nonneg hu _) (FlModel.gq_nonneg hu _))
 
@@ -405,19 +382,18 @@ theorem solveBasic_backward_gamma {n : Nat} (hn : 1 ≤ n) (hnu : ((3 * n : ℕ)
     (hb : b.size = n) (h : Mat.solveBasic A b = .ok x) :
     ∃ (m' : Mat (Fl M)) (y : Array (Fl M)) (tr : GTrace (Fl M)),
       Mat.gaussT A b = .ok ((m', y), tr) ∧ Mat.backsolve m' y = .ok x ∧
-      (tr.reg = true → ∃ σ : Nat → Nat, PermOK n tr.perm σ ∧ ∃ ΔA : Nat → Nat → ℝ,
+      ∃ σ : Nat → Nat, PermOK n tr.perm σ ∧ ∃ ΔA : Nat → Nat → ℝ,
         (∀ i, i < n →
           ∑ j ∈ Finset.range n, ((a i j).val + ΔA i j) * (vf x j).val = (vf b i).val) ∧
         ∀ r c, r < n → c < n → |ΔA (tr.perm r) c|
-          ≤ ((3 * n : ℕ) : ℝ) * M.u / (1 - ((3 * n : ℕ) : ℝ) * M.u) * absGLU n tr m' r c) := by
+          ≤ ((3 * n : ℕ) : ℝ) * M.u / (1 - ((3 * n : ℕ) : ℝ) * M.u) * absGLU n tr m' r c := by
   have hu0 := M.u_nonneg
   have hn1 : (1 : ℝ) ≤ n := by exact_mod_cast hn
   have h3 : ((3 * n : ℕ) : ℝ) = 3 * n := by push_cast; ring
   have hu : M.u < 1 := by rw [h3] at hnu; nlinarith
-  obtain ⟨m', y, tr, hg, _, hbs, hgood⟩ := solveBasic_backward hu hn hA hb h
-  refine ⟨m', y, tr, hg, hbs, fun hreg => ?_⟩
-  obtain ⟨_, _, σ, hperm, _, ΔA, hsol, hbd⟩ := hgood hreg
-  refine ⟨σ, hperm, ΔA, hsol, fun r c hr hc => (hbd r c hr hc).trans ?_⟩
+  obtain ⟨m', y, tr, hg, _, hbs, _, _, σ, hperm, _, ΔA, hsol, hbd⟩ :=
+    solveBasic_backward hu hn hA hb h
+  refine ⟨m', y, tr, hg, hbs, σ, hperm, ΔA, hsol, fun r c hr hc => (hbd r c hr hc).trans ?_⟩
   refine mul_le_mul_of_nonneg_right ?_ (absGLU_nonneg n tr m' r c)
   have e : n - 1 + (2 * n - 1) = 3 * n - 2 := by omega
   have h1 : M.gq (n - 1) + M.gq (2 * n - 1) ≤ M.gq (3 * n - 2) := by
@@ -433,17 +409,15 @@ end Rounding
 section Examples
 
 /-- exact arithmetic is a model (`u = 0 < 1`); there all the constants vanish, `ΔA = 0`, and the exact
-soundness theorem (`solveBasic_sound` of C01S) is recovered for regular runs: `A x = b` -/
+soundness theorem (`solveBasic_sound` of C01S) is recovered: `A x = b` -/
 example {n : Nat} (hn : 1 ≤ n) {A : Mat (Fl FlModel.exact)} {a : Nat → Nat → Fl FlModel.exact}
     (hA : Mat.Is A n n a) {b x : Array (Fl FlModel.exact)} (hb : b.size = n)
     (h : Mat.solveBasic A b = .ok x) :
-    ∃ (m' : Mat (Fl FlModel.exact)) (y : Array (Fl FlModel.exact)) (tr : GTrace (Fl FlModel.exact)),
-      Mat.gaussT A b = .ok ((m', y), tr) ∧ (tr.reg = true → x.size = n ∧ ∀ i, i < n →
-        ∑ j ∈ Finset.range n, (a i j).val * (vf x j).val = (vf b i).val) := by
+    x.size = n ∧ ∀ i, i < n →
+      ∑ j ∈ Finset.range n, (a i j).val * (vf x j).val = (vf b i).val := by
   have hu : FlModel.exact.u < 1 := by simp [FlModel.exact]
-  obtain ⟨m', y, tr, hg, _, _, hgood⟩ := solveBasic_backward hu hn hA hb h
-  refine ⟨m', y, tr, hg, fun hreg => ?_⟩
-  obtain ⟨hxs, _, σ, hperm, _, ΔA, hsol, hbd⟩ := hgood hreg
+  obtain ⟨m', y, tr, hg, _, _, hxs, _, σ, hperm, _, ΔA, hsol, hbd⟩ :=
+    solveBasic_backward hu hn hA hb h
   refine ⟨hxs, fun i hi => ?_⟩
   rw [← hsol i hi]
   apply Finset.sum_congr rfl
@@ -468,7 +442,7 @@ theorem solveBasic_A2_b2 : Mat.solveBasic A2 b2 = .ok #[⟨1⟩, ⟨2⟩] := by
     Except.pure, E.add_eq, E.sub_eq, E.mul_eq, E.divM_eq, E.lt_eq, E.mag_eq, Fl.ext_iff,
     backsolve, usub]
 
-/-- the instrumented elimination of that system: regular, rows exchanged, multiplier `1/3` -/
+/-- the instrumented elimination of that system: rows exchanged, multiplier `1/3` -/
 theorem gaussT_A2_b2 : ∃ s, Mat.gaussT A2 b2 = .ok s ∧ s.2.reg = true ∧ s.2.perm 0 = 1 ∧
     s.2.perm 1 = 0 ∧ (s.2.mult 1 0).val = 1 / 3 ∧
     s.1.1 = ⟨#[⟨3⟩, ⟨4⟩, ⟨0⟩, ⟨2 / 3⟩], 2, 2⟩ ∧ s.1.2 = #[⟨11⟩, ⟨4 / 3⟩] := by
@@ -477,7 +451,7 @@ theorem gaussT_A2_b2 : ∃ s, Mat.gaussT A2 b2 = .ok s ∧ s.2.reg = true ∧ s.
     forM', List.range', Mat.get, Mat.set, aget, aset, bind, Except.bind, pure,
     Except.pure, E.add_eq, E.sub_eq, E.mul_eq, E.divM_eq, E.lt_eq, E.mag_eq, Fl.ext_iff, usub]
 
-/-- the hypotheses of `solveBasic_backward` (including regularity of the run) are satisfiable for a
+/-- the hypotheses of `solveBasic_backward` are satisfiable for a
 concrete non-trivial system with a genuine row exchange, and its conclusion holds there -/
 example : ∃ (A : Mat E) (b x : Array E), Mat.Is A 2 2 (Mat.ent A) ∧ b.size = 2 ∧
     FlModel.exact.u < 1 ∧ Mat.solveBasic A b = .ok x ∧
@@ -491,23 +465,26 @@ example : ∃ (A : Mat E) (b x : Array E), Mat.Is A 2 2 (Mat.ent A) ∧ b.size =
   have hu : FlModel.exact.u < 1 := by simp [FlModel.exact]
   have hA : Mat.Is A2 2 2 (Mat.ent A2) := Mat.WFn.is ⟨rfl, rfl, rfl⟩
   refine ⟨A2, b2, _, hA, rfl, hu, solveBasic_A2_b2, ?_⟩
-  obtain ⟨m', y, tr, hg, _, _, hgood⟩ := solveBasic_backward hu (by omega) hA rfl solveBasic_A2_b2
+  obtain ⟨m', y, tr, hg, _, _, _, _, σ, _, _, ΔA, hsol, hbd⟩ :=
+    solveBasic_backward hu (by omega) hA rfl solveBasic_A2_b2
   obtain ⟨s, hs, h1, h2, h3, h4, _, _⟩ := gaussT_A2_b2
   rw [hg] at hs
   injection hs with hs
   subst hs
-  obtain ⟨_, _, σ, _, _, ΔA, hsol, hbd⟩ := hgood h1
   refine ⟨m', y, tr, hg, h1, h2, h3, ?_, ΔA, hsol, hbd⟩
   rw [GLhat_apply, if_pos (by omega)]
   exact h4
 
-/-! THE FALLBACK OF THE PIVOT SEARCH IN ROUNDED ARITHMETIC.  Model `fl x = (1+u) x`, `u = 2⁻¹⁰`
-(`FlModel.scale`); `A = [[1,1,0],[1,s,1],[1,s,2]]` with `s = (1+u)²`, `b = [1,2,4]` (all entries are
-`≤ 2` in magnitude).  Step 0 leaves the EXACT zeros `fl(s − fl(fl(1/1)·1)) = 0` in column 1 of rows 1, 2
-and the NON-zero residue `g = fl(1 − fl(fl(1/1)·1)) = −(1+u)((1+u)² − 1) ≈ −2u` in column 0.  Step 1
-finds an all-zero sub-column, falls back to row 0 and exchanges rows 1 and 0; no division fails (the
-new pivot is `a₀₁ = 1`, the multiplier `fl(0/1) = 0`), the back substitution divides by `g ≠ 0`, and
-`solve_basic` returns `x̂ ≈ [257.9, 1.002, 1.5005]`. -/
+/-! A NUMERICALLY SINGULAR SYSTEM IS REFUSED.  Model `fl x = (1+u) x`, `u = 2⁻¹⁰` (`FlModel.scale`);
+`A = [[1,1,0],[1,s,1],[1,s,2]]` with `s = (1+u)²`, `b = [1,2,4]`.  Step 0 leaves the EXACT zeros
+`fl(s − fl(fl(1/1)·1)) = 0` in column 1 of rows 1, 2 (and the NON-zero residues
+`fl(1 − fl(fl(1/1)·1)) = −(1+u)((1+u)² − 1) ≈ −2u` in column 0, which nothing reads).  In step 1 the
+pivot sub-column is exactly zero: the search returns the diagonal row `p = k = 1`, no rows are
+exchanged, and the division `m₂₁ / m₁₁` by the exactly zero pivot is the `.error .arith` of the
+abstract model (`0/0 = NaN` over IEEE): NO value is returned, so the backward error theorem is
+vacuous here and nothing wrong is returned.  (With the original search, `max_index = 0`, rows 1 and 0
+were exchanged at this point and `solve_basic` returned `x̂ ≈ [257.9, 1.002, 1.5005]`, for which every
+admissible perturbation of row 0 of `A` has an entry `≥ 9/10`.) -/
 
 theorem u10_nonneg : (0 : ℝ) ≤ 1 / 1024 := by norm_num
 abbrev S10 := S (1 / 1024) u10_nonneg
@@ -517,51 +494,36 @@ theorem S.sub_eq (u : ℝ) (hu0 : 0 ≤ u) (a b : S u hu0) :
 noncomputable def A3 : Mat S10 :=
   ⟨#[⟨1⟩, ⟨1⟩, ⟨0⟩, ⟨1⟩, ⟨1050625 / 1048576⟩, ⟨1⟩, ⟨1⟩, ⟨1050625 / 1048576⟩, ⟨2⟩], 3, 3⟩
 noncomputable def b3 : Array S10 := #[⟨1⟩, ⟨2⟩, ⟨4⟩]
-noncomputable def x3 : Array S10 :=
-  #[⟨1161947408443109375 / 4505798650626048⟩, ⟨1050625 / 1048576⟩, ⟨3222270975 / 2147483648⟩]
 
-/-- the instrumented elimination of that system is NOT regular, and it leaves a non-zero residue in
-position `(0,0)` (and `(2,0)`) -/
-theorem gaussT_A3_b3 : ∃ s, Mat.gaussT A3 b3 = .ok s ∧ s.2.reg = false ∧
-    s.1.1 = ⟨#[⟨-(2100225 / 1073741824)⟩, ⟨0⟩, ⟨1025 / 1024⟩, ⟨1⟩, ⟨1⟩, ⟨0⟩,
-      ⟨-(2100225 / 1073741824)⟩, ⟨0⟩, ⟨1050625 / 524288⟩], 3, 3⟩ := by
-  norm_num [A3, b3, gaussT, gaussStepT, partialPivotT, elimRowT, GTrace.init, swapIdx,
-    partialPivot, maxAbsInColumn, swapRows, swapElem, Vec.swap, elimRow,
+/-- the state after step 0: column 1 is exactly zero in rows 1 and 2, column 0 holds non-zero
+residues there -/
+theorem gaussStep0_A3_b3 : Mat.gaussStep (A3, b3) 0 =
+    .ok (⟨#[⟨1⟩, ⟨1⟩, ⟨0⟩, ⟨-(2100225 / 1073741824)⟩, ⟨0⟩, ⟨1025 / 1024⟩,
+        ⟨-(2100225 / 1073741824)⟩, ⟨0⟩, ⟨1025 / 512⟩], 3, 3⟩,
+      #[⟨1⟩, ⟨1072690175 / 1073741824⟩, ⟨3222270975 / 1073741824⟩]) := by
+  norm_num [A3, b3, gaussStep, partialPivot, maxAbsInColumn, swapRows, swapElem, Vec.swap, elimRow,
     forM', List.range', Mat.get, Mat.set, aget, aset, bind, Except.bind, pure,
+    Except.pure, S.add_eq, S.sub_eq, S.mul_eq, S.divM_eq, S.lt_eq, S.mag_eq, Fl.ext_iff]
+
+/-- the pivot search of step 1 on that state returns the diagonal row -/
+theorem pivot1_A3 : Mat.maxAbsInColumn
+    (⟨#[⟨1⟩, ⟨1⟩, ⟨0⟩, ⟨-(2100225 / 1073741824)⟩, ⟨0⟩, ⟨1025 / 1024⟩,
+        ⟨-(2100225 / 1073741824)⟩, ⟨0⟩, ⟨1025 / 512⟩], 3, 3⟩ : Mat S10) 1 1 = .ok 1 := by
+  norm_num [maxAbsInColumn, forM', List.range', Mat.get, aget, bind, Except.bind, pure,
+    Except.pure, S.lt_eq, S.mag_eq]
+
+/-- the elimination hits the exactly zero pivot: no state is returned -/
+theorem gaussWithPivot_A3_b3 : Mat.gaussWithPivot A3 b3 = .error .arith := by
+  norm_num [A3, b3, gaussWithPivot, partialPivot, maxAbsInColumn, swapRows, swapElem, Vec.swap,
+    elimRow, forM', List.range', Mat.get, Mat.set, aget, aset, bind, Except.bind, pure,
     Except.pure, S.add_eq, S.sub_eq, S.mul_eq, S.divM_eq, S.lt_eq, S.mag_eq, Fl.ext_iff, usub]
 
-/-- … and nevertheless `solve_basic` RETURNS a vector (in exact arithmetic it would not: C01S) -/
-theorem fallback_returns : Mat.solveBasic A3 b3 = .ok x3 := by
+/-- … hence `solve_basic` returns NO value on this numerically singular system (the original pivot
+search made it return a vector with relative backward error `≈ 1`) -/
+theorem solveBasic_A3_b3 : Mat.solveBasic A3 b3 = .error .arith := by
   have h1 : ¬ A3.rows ≠ b3.size := by simp [A3, b3]
   have h2 : ¬ A3.rows ≠ A3.cols := by simp [A3]
-  simp only [solveBasic, h1, h2, if_false]
-  norm_num [A3, b3, x3, gaussWithPivot, partialPivot, maxAbsInColumn, swapRows, swapElem, Vec.swap,
-    elimRow, forM', List.range', Mat.get, Mat.set, aget, aset, bind, Except.bind, pure,
-    Except.pure, S.add_eq, S.sub_eq, S.mul_eq, S.divM_eq, S.lt_eq, S.mag_eq, Fl.ext_iff,
-    backsolve, usub]
-
-/-- the returned vector is not the solution of any nearby system: EVERY perturbation of the first
-row of `A` for which `x̂` satisfies the first equation has an entry `≥ 9/10` (`|a_ij| ≤ 2`,
-`u = 2⁻¹⁰`; a backward stable method would need `O(u)` only).  So the hypothesis `tr.reg = true` of
-`solveBasic_backward` cannot be dropped. -/
-theorem fallback_not_backward_stable (ΔA : Nat → ℝ)
-    (h : ∑ j ∈ Finset.range 3, ((Mat.ent A3 0 j).val + ΔA j) * (vf x3 j).val = (vf b3 0).val) :
-    ∃ j, j < 3 ∧ 9 / 10 ≤ |ΔA j| := by
-  have e0 : (Mat.ent A3 0 0).val = 1 := rfl
-  have e1 : (Mat.ent A3 0 1).val = 1 := rfl
-  have e2 : (Mat.ent A3 0 2).val = 0 := rfl
-  have x0 : (vf x3 0).val = 1161947408443109375 / 4505798650626048 := rfl
-  have x1 : (vf x3 1).val = 1050625 / 1048576 := rfl
-  have x2 : (vf x3 2).val = 3222270975 / 2147483648 := rfl
-  have hb : (vf b3 0).val = 1 := rfl
-  simp only [Finset.sum_range_succ, Finset.sum_range_zero, zero_add, e0, e1, e2, x0, x1, x2, hb] at h
-  by_contra hcon0
-  have hcon : ∀ j, j < 3 → |ΔA j| < 9 / 10 :=
-    fun j hj => lt_of_not_ge (fun hge => hcon0 ⟨j, hj, hge⟩)
-  have h0 := abs_lt.mp (hcon 0 (by omega))
-  have h1 := abs_lt.mp (hcon 1 (by omega))
-  have h2 := abs_lt.mp (hcon 2 (by omega))
-  nlinarith [h0.1, h0.2, h1.1, h1.2, h2.1, h2.2]
+  simp only [solveBasic, h1, h2, if_false, gaussWithPivot_A3_b3, bind, Except.bind]
 
 end Ex
 
